@@ -11,6 +11,8 @@ LAKE_TARGETS = ["Moclo.Props.C15"]
 THEOREMS = ["Moclo.C15." + t for t in [
     "contains_iff_in_some_rotation", "contains_iff_in_some_rshift", "contains_rotation_invariant",
     "longer_never_contained", "slice_is_linear", "slice_length"]]
+# reductions under which a failing case stays a case of this property (see shrink.py)
+SHRINK = {"lists": ["feats", "rots"], "strings": True, "ints": ["a", "b"]}
 RULE = ("membership: all words and queries over {A,C} up to length 5 (quick) / 7 (thorough) plus random words "
         "with queries cut from a rotation, mutated, or longer than the record, asked at every rotation; "
         "slices with random bounds (negative, open, reversed); '+' with str/Seq/SeqRecord/CircularRecord on "
@@ -109,6 +111,18 @@ def check_object_behaviour(ctx, case):
     after = (impl.canon_record(src), list(src.dbxrefs), {k: v for k, v in src.annotations.items()})
     if before[0] != after[0] or before[1] != after[1] or set(before[2]) != set(after[2]):
         ctx.fail("editing a wrapped copy reaches the original record", case)
+    # the same for a bare record (as read from FASTA): nothing to copy yet, still nothing may be shared
+    bare = SeqRecord(Seq(wd), id="bare")
+    c1, c2 = CircularRecord(bare), CircularRecord(bare)
+    c1.features.append(impl.mk_feature(impl.Feat(1, "u2", (), ((0, 1, 1),))))
+    c1.annotations["topology"] = "circular"
+    c1.dbxrefs.append("x")
+    c1.letter_annotations["track"] = [0] * len(wd)
+    shared = [nm for nm, o in (("original", bare), ("second wrap", c2))
+              if o.features or o.annotations or o.dbxrefs or o.letter_annotations]
+    if shared:
+        ctx.fail("editing a wrapped copy of a bare record (no features, annotations, dbxrefs) shows in the {}".format(
+            " and the ".join(shared)), case)
     ctx.case(case, nontrivial=True)
 
 
